@@ -66,4 +66,27 @@ theorem resAC : ∃ r, approximateCurve 2 ptsC cdsC 4 flQ = some r := by
   have h : (approximateCurve 2 ptsC cdsC 4 flQ).isSome = true := by decide +kernel
   exact Option.isSome_iff_exists.mp h
 
+/-- the doubles `1.0/3` and `1.0/5` (exact values): the first is below `1/3`, the second above `1/5` by `2⁻⁵⁴` -/
+def dbl13 : ℚ := 6004799503160661 / 18014398509481984
+def dbl15 : ℚ := 3602879701896397 / 18014398509481984
+
+theorem okIC5 : InterpCurveOk 5 ptsC cdsC := ⟨by omega, by decide, by decide, by decide +kernel⟩
+
+theorem netI : NetOk 3 ptsI := by
+  intro pt hpt
+  simp [ptsI] at hpt
+  rcases hpt with h | h | h | h | h | h | h | h | h | h | h | h <;> simp [h]
+
+theorem resIC13 : ∃ r, interpolateCurve 3 ptsC cdsC dbl13 = some r := by
+  have h : (interpolateCurve 3 ptsC cdsC dbl13).isSome = true := by decide +kernel
+  exact Option.isSome_iff_exists.mp h
+
+theorem resIC15 : ∃ r, interpolateCurve 5 ptsC cdsC dbl15 = some r := by
+  have h : (interpolateCurve 5 ptsC cdsC dbl15).isSome = true := by decide +kernel
+  exact Option.isSome_iff_exists.mp h
+
+theorem resIS : ∃ r, interpolateSurface 2 2 3 4 ptsI cuI cvI (1/2) (1/2) = some r := by
+  have h : (interpolateSurface 2 2 3 4 ptsI cuI cvI (1/2) (1/2)).isSome = true := by decide +kernel
+  exact Option.isSome_iff_exists.mp h
+
 end C11
